@@ -74,6 +74,7 @@ type Gate struct {
 
 // Tracer records events.
 type Tracer struct {
+	maxMsg uint64
 	mu      sync.Mutex
 	events  []Event
 	seq     int
@@ -183,6 +184,9 @@ func (t *Tracer) record(gate bool, ev string, node uint32, msg uint64, tok uint6
 	}
 	if tok == 0 && msg != 0 {
 		tok = t.msgTok[msg]
+	}
+	if msg > t.maxMsg {
+		t.maxMsg = msg
 	}
 	t.seq++
 	rec := Event{Seq: t.seq, Ev: ev, Node: node, Msg: msg, Tok: tok, Gate: gate, F: f}
@@ -362,6 +366,26 @@ func NewWriter(path string) (*Writer, error) {
 // Lines returns the number of lines written.
 func (w *Writer) Lines() int { return w.n }
 
+// NormMsg maps a message id to a number TLC can hold (its integers are 32 bit):
+// ids beyond 2^31 - the id space is 64 bit wide, and some workloads move the
+// manager's counter forward by multiples of 2^32 to stand for the 2^32 calls a
+// long-lived process makes - are folded to (id / 2^32) * 2^20 + id mod 2^32,
+// which is injective as long as the low part stays below 2^20 and the high part
+// below 2^11 (the workloads see to that).
+func NormMsg(id uint64) uint64 {
+	if id < 1<<31 {
+		return id
+	}
+	return (id>>32)<<20 + (id & 0xFFFFFFFF)
+}
+
+// MaxMsg returns the largest message id seen in any event so far.
+func (t *Tracer) MaxMsg() uint64 {
+	t.mu.Lock()
+	defer t.mu.Unlock()
+	return t.maxMsg
+}
+
 // Write appends one event; t is the scenario index inside the file.
 func (w *Writer) Write(t int, e Event) error {
 	m := make(map[string]interface{}, len(e.F)+6)
@@ -372,7 +396,7 @@ func (w *Writer) Write(t int, e Event) error {
 	m["seq"] = e.Seq
 	m["ev"] = e.Ev
 	m["node"] = e.Node
-	m["msg"] = e.Msg
+	m["msg"] = NormMsg(e.Msg)
 	m["tok"] = e.Tok
 	b, err := json.Marshal(m)
 	if err != nil {
